@@ -41,7 +41,18 @@ def rel_terms(rng, vs_all, must, pt, n):
 
 
 def gen_pair(rng: random.Random, overlap: float = 0.15) -> Tuple[dict, dict, str]:
-    w = rng.choice(["independent", "cascade", "cascade", "cascade-rev", "shared-in", "feedback", "feedback-free", "multi"])
+    w = rng.choice(["independent", "cascade", "cascade", "cascade-rev", "shared-in", "feedback", "feedback-free", "multi", "kay3"])
+    if w == "kay3":
+        # three internal variables; the producer bounds them below through a diagonally dominant (or just not dominant) system,
+        # the consumer's guarantee sums them: the composition must relax it through all three rows or drop it
+        o1, o3 = rng.choice([(0.6, 0.6), (0.5, 0.5), (0.75, 0.5), (0.5, 0.25), (0.25, 0.25)])
+        c1 = {"ins": ["i", "j", "p"], "outs": ["x", "y", "q"], "a": [],
+              "g": [{"c": {"i": 1.0, "x": -1.0, "y": -o1}, "k": float(rng.randint(0, 2))}, {"c": {"j": 1.0, "y": -1.0}, "k": float(rng.randint(0, 2))},
+                    {"c": {"p": 1.0, "q": -1.0, "y": -o3}, "k": float(rng.randint(0, 2))}]}
+        c2 = {"ins": ["x", "y", "q"], "outs": ["o"], "a": [], "g": [{"c": {"x": 1.0, "y": 1.0, "q": 1.0, "o": -1.0}, "k": float(rng.randint(0, 3))}]}
+        if rng.random() < 0.5:
+            c1, c2 = c2, c1
+        return c1, c2, w
     names = ["i", "j", "x", "y", "o", "p", "q"]
     pt = {v: float(rng.randint(-2, 2)) for v in names}
     if w == "independent":
